@@ -38,6 +38,18 @@ def generate(repo):
     rs = find1(r"void\s+reset\s*\(\s*\)\s*\{(.*?)\n    \}", body, "reset body").group(1)
     m = find1(r"\bstate\s*=\s*(\w+)\s*;", rs, "reset: state = 1")
     out.append(f"Definition prbs_reset_state : N := {cint(m.group(1))}%N.")
+    # reset(): which members it assigns and to what (a member it does not mention keeps its old value in the model)
+    def reset_field(name, what):
+        mm = re.search(r"\b" + name + r"\s*=\s*(\w+)\s*;", rs)
+        if not mm:
+            return "None"
+        v = mm.group(1)
+        v = {"false": 0, "true": 1}.get(v, None) if v in ("false", "true") else cint(v)
+        return f"(Some {v}%N)"
+    for name in ("synced", "sync_count", "bit_count", "err_count", "hist_count", "hist_pos"):
+        out.append(f"Definition prbs_reset_{name} : option N := {reset_field(name, name)}.")
+    hf = re.search(r"\bhistory\.fill\s*\(\s*(\w+)\s*\)\s*;", rs)
+    out.append(f"Definition prbs_reset_history_fill : option N := {('(Some %d%%N)' % cint(hf.group(1))) if hf else 'None'}.")
     # BERT frame size at the producer and at the consumer
     md = strip_cpp_comments(read(repo, "apps/m17-mod.cpp"))
     f = find1(r"make_bert_frame\s*\(\s*PRBS\s*&\s*\w+\s*\)\s*\{(.*?)std::array\s*<\s*uint8_t\s*,\s*402\s*>", md, "make_bert_frame data generation").group(1)
